@@ -26,7 +26,8 @@ RULE = ("one connection (plain or TLS) to a real http.Server with tymeout T in {
         "0 (would block), 7, 40 or all bytes of the one send attempt; pass times are concentrated within one unit of "
         "the window edge last_bytes_moved+T; tyme unit 1, 1/4, 1/32 or 8 s; a case is non-trivial when T > 0 and "
         "either a pass with traffic falls within one unit of the deadline of that moment or a send attempt with "
-        "pending output is blocked")
+        "pending output is blocked or the server is wound to a tymist at a different tyme while the connection is open; "
+        "with probability 0 / 0.08 / 0.25 per step the server is wound to a new Tymist at tyme 0, earlier, later or equal")
 MODELLED = ["virtual tyme as integers (the harness uses tymes that are integer multiples of a unit of 1, 1/4, 1/32 or 8 s, so "
             "float arithmetic is exact; other fractional tymes are not exercised)",
             "HTTP content reduced to: number of received chunks per pass, whether a persistent / non-persistent request "
@@ -83,6 +84,18 @@ def directed():
         # persistent response stuck, then a non-persistent request; bytes after the request are ignored by the parser
         {"tls": False, "T": 4, "t0": 0, "passes": [P(0, "req", 1, cap=0), P(9, "idle", cap=7), P(1, "reqclose", 2, cap=0),
                                                     P(20, "req", 1, cap=40), P(1, "rx", 2), P(1, "idle"), P(1, "idle")]},
+        # wind to a tymist at an earlier tyme right after the accept: idle connection closed T after the wind, not before
+        # (seeded change C12-2 witness: the tymer must restart on the new time base)
+        {"tls": False, "T": 5, "t0": 50, "passes": [P(0, "idle"), [0, ["wind"], 0], P(4, "idle"), P(1, "idle"), P(1, "idle")]},
+        # wind to a later tyme: a busy connection is not closed at once, an idle one T after the wind
+        {"tls": False, "T": 5, "t0": 0, "passes": [P(0, "rx", 1), P(3, "rx", 1), [100, ["wind"], 0], P(0, "idle"), P(3, "rx", 1),
+                                                    P(4, "rx", 1), P(4, "idle"), P(1, "idle")]},
+        {"tls": True, "T": 4, "t0": 7, "passes": [P(0, "idle"), P(3, "idle"), [2, ["wind"], 0], P(3, "idle"), P(1, "idle")]},
+        {"tls": True, "T": 4, "t0": 0, "passes": [P(0, "reqclose", 1, cap=40), [60, ["wind"], 0], P(3, "idle", cap=0),
+                                                   P(1, "idle", cap=0), [10, ["wind"], 0], P(3, "idle", cap=7), P(4, "idle", cap=0)]},
+        # wind of a persistent and of a closed connection
+        {"tls": False, "T": 3, "t0": 0, "passes": [P(0, "req", 1), [40, ["wind"], 0], P(9, "idle"), P(9, "idle")]},
+        {"tls": False, "T": 2, "t0": 0, "passes": [P(0, "idle"), P(2, "idle"), [0, ["wind"], 0], P(1, "idle")]},
         # client keeps sending while the response is stuck: that is traffic
         {"tls": False, "T": 3, "t0": 0, "passes": [P(0, "reqclose", 1, cap=0), P(2, "rx", 1, cap=0), P(2, "rx", 1, cap=0),
                                                     P(2, "idle", cap=0), P(1, "idle", cap=0)]},
@@ -98,6 +111,7 @@ def generate(rng, tier):
         tls = rng.random() < 0.4
         style = rng.random()           # < 0.45: a non-persistent request early, then mostly send behaviour
         stall = rng.random() < 0.5     # the reader tends to stall
+        windy = rng.choice([0, 0, 0.08, 0.25])   # chance per step that the server is wound to another tymist
         def cap():
             if style >= 0.45 and rng.random() < 0.7:
                 return ALL
@@ -120,6 +134,11 @@ def generate(rng, tier):
                 dt = rng.randint(0, max(1, abs(T)))
             else:
                 dt = rng.randint(0, 2 * abs(T) + 2)
+            if rng.random() < windy:
+                now = rng.choice([0, 0, max(0, now - rng.randint(1, 60)), now + rng.randint(1, 120), now])
+                last = now
+                passes.append([now, ["wind"], 0])
+                continue
             now += dt
             q = rng.random()
             if responding:
@@ -214,6 +233,17 @@ def run_impl(case):
         sizes, total_before = [], 0
         for p in case["passes"]:
             dt, a, cap = _norm(p)
+            if a[0] == "wind":
+                # the server is wound to another Tymist whose tyme is dt (absolute, in model units)
+                tymist = tyming.Tymist(tyme=float(dt) * u, tock=u)
+                srv.wind(tymist.tymen())
+                if core is None:
+                    raise AssertionError("wind before the first pass is not supported by the driver")
+                closed = core.closes > 0
+                out.append({"closed": closed, "tmo": _as_int(ix.tymeout / u), "st": _as_int(ix.tymer._start / u),
+                            "sp": _as_int(ix.tymer._stop / u), "pend": 0 if closed else len(ix.txbs),
+                            "sent": 0, "now": _as_int(tymist.tyme / u)})
+                continue
             tymist.tyme = tymist.tyme + float(dt) * u
             world.send_cap = None if cap >= ALL else cap
             chunks = []
@@ -262,6 +292,12 @@ def _expect(case, obs):
     exp = []
     for p, o in zip(case["passes"], obs["passes"]):
         dt, a, cap = _norm(p)
+        if a[0] == "wind":          # new time base: idleness is measured from the wind
+            now = dt
+            exp.append((False, False, last, persisted))
+            if not closed:
+                last = now
+            continue
         now += dt
         before = last
         idle_due = (not closed) and T > 0 and not persisted and now >= last + T
@@ -308,6 +344,11 @@ def nontrivial(case, obs):
     hit, pend = False, 0
     for p, o in zip(case["passes"], obs["passes"]):
         dt, a, cap = _norm(p)
+        if a[0] == "wind":
+            if not o["closed"] and dt != now:
+                hit = True
+            now = last = dt
+            continue
         now += dt
         if a[0] != "idle" and abs(now - (last + T)) <= 1:
             hit = True
@@ -323,6 +364,8 @@ def nontrivial(case, obs):
 def _act(a):
     if a[0] == "idle":
         return "Idle.Quiet"
+    if a[0] == "wind":
+        return "Idle.Rewind"
     c = {"rx": "Idle.Rx", "req": "Idle.Req", "reqclose": "Idle.ReqClose"}[a[0]]
     return f"({c} {coq_N(a[1])})"
 
@@ -331,7 +374,7 @@ def to_coq(case, obs):
     now, sched = case["t0"], []
     for p in case["passes"]:
         dt, a, cap = _norm(p)
-        now += dt
+        now = dt if a[0] == "wind" else now + dt
         sched.append(f"({coq_Z(now)}, {_act(a)}, {coq_N(cap)})")
     ob = []
     for o in obs["passes"]:
@@ -347,19 +390,22 @@ def shrink(case):
     ps = [list(_norm(p)) for p in case["passes"]]
     for i in range(1, len(ps)):
         q = [list(p) for p in ps[:i] + ps[i + 1:]]
-        if i < len(ps) - 1:
+        if i < len(ps) - 1 and ps[i][1][0] != "wind" and q[i][1][0] != "wind":
             q[i][0] += ps[i][0]
         yield dict(case, passes=q)
     for i, (dt, a, cap) in enumerate(ps):
         if a[0] == "rx" and a[1] > 1:
             yield dict(case, passes=ps[:i] + [[dt, ["rx", a[1] - 1], cap]] + ps[i + 1:])
+        if a[0] == "wind":
+            continue
         if cap not in (0, ALL):
             yield dict(case, passes=ps[:i] + [[dt, a, ALL]] + ps[i + 1:])
 
 
 def distribution(cases, obs):
     d = {"tls": sum(1 for c in cases if c["tls"]), "T<=0": sum(1 for c in cases if c["T"] <= 0),
-         "closed": 0, "with_nonpersistent_response": 0, "with_blocked_send_while_pending": 0}
+         "closed": 0, "with_nonpersistent_response": 0, "with_blocked_send_while_pending": 0,
+         "with_wind": sum(1 for c in cases if any(_norm(p)[1][0] == "wind" for p in c["passes"]))}
     for c, o in zip(cases, obs):
         if isinstance(o, dict) and "passes" in o and o["passes"]:
             d["closed"] += 1 if o["passes"][-1]["closed"] else 0
@@ -426,10 +472,45 @@ def _two_connections(T, tls):
     return None
 
 
+def _wound_later(T, tls, busy):
+    """Accepted while the server is not wound (tymer started at 0.0), then wound to a tymist at tyme 100:
+    a busy connection must survive, an idle one must be closed T after the wind (not at once, not never)."""
+    from hio.core.http import serving as hserving
+    from hio.base import tyming
+    world = fk.World()
+    with fk.patched(world):
+        kw = dict(port=world.port, host="127.0.0.1", tymeout=float(T), app=_app)
+        if tls:
+            kw.update(scheme="https", context=fk.FakeContext())
+        srv = hserving.Server(**kw)
+        srv.reopen()
+        f = Feeder()
+        srv.servant.ss.core.queue.append([0, False, ["ok"], [f.partial()]])
+        srv.service(); srv.service()
+        ix = srv.servant.ixes.get(fk.ca_of(0))
+        if ix is None:
+            return "connection not accepted by the unwound server"
+        core = ix.cs.core
+        tymist = tyming.Tymist(tyme=100.0, tock=1.0)
+        srv.wind(tymist.tymen())
+        for t in range(100, 100 + 3 * T + 1):
+            tymist.tyme = float(t)
+            if busy:
+                core.chunks.append(f.partial())
+            srv.service()
+            if busy and core.closes:
+                return f"busy connection closed at tyme {t} after a wind at 100 (tymeout {T})"
+            if not busy and (core.closes > 0) != (t >= 100 + T):
+                return f"idle connection wound at 100 is {'closed' if core.closes else 'open'} at tyme {t} (tymeout {T})"
+        srv.close()
+    return None
+
+
 def extra(tier, ctx):
     n = 0
     for tls in (False, True):
-        for f, args in [(_unwound_round, (tls,))] + [(_two_connections, (T, tls)) for T in (2, 3, 5, 9)]:
+        for f, args in ([(_unwound_round, (tls,))] + [(_two_connections, (T, tls)) for T in (2, 3, 5, 9)] +
+                        [(_wound_later, (T, tls, b)) for T in (2, 5) for b in (False, True)]):
             try:
                 why = f(*args)
             except Exception as ex:
